@@ -276,3 +276,14 @@ func IsUnitish(v V) bool {
 	n := v[0]*v[0] + v[1]*v[1] + v[2]*v[2]
 	return n > 0.5 && n < 2
 }
+
+// Antipodal reports whether a and b have exactly opposite directions (they
+// project to antipodal points of the sphere), so that no geodesic edge ab exists.
+func Antipodal(a, b V) bool {
+	l, _ := Lift(a, b)
+	x := CrossI(l[0], l[1])
+	if x[0].Sign() != 0 || x[1].Sign() != 0 || x[2].Sign() != 0 {
+		return false
+	}
+	return DotI(l[0], l[1]).Sign() < 0
+}
